@@ -74,20 +74,21 @@ impl RollingChecksum {
     #[cfg_attr(feature = "contracts", ensures(ret.b < Self::MOD, "b < MOD"))]
     #[cfg_attr(feature = "contracts", ensures(ret.count == data.len(), "count == input len"))]
     pub fn new(data: &[u8]) -> Self {
-        let mut a: u32 = 0;
-        let mut b: u32 = 0;
+        // Accumulate in 64 bits: the weighted sum of a 64 KiB block exceeds 2^32,
+        // and reducing a wrapped 32-bit sum mod 65521 gives the wrong residue.
+        let mut a: u64 = 0;
+        let mut b: u64 = 0;
         let len = data.len();
 
         for (i, &byte) in data.iter().enumerate() {
-            a = a.wrapping_add(u32::from(byte));
+            a += u64::from(byte);
             // Weight is (len - i) so first byte has highest weight
-            // Truncation is intentional: checksum uses 32-bit arithmetic
-            b = b.wrapping_add((len - i) as u32 * u32::from(byte));
+            b += (len - i) as u64 * u64::from(byte);
         }
 
         let result = Self {
-            a: a % Self::MOD,
-            b: b % Self::MOD,
+            a: (a % u64::from(Self::MOD)) as u32,
+            b: (b % u64::from(Self::MOD)) as u32,
             count: len,
         };
         debug_assert!(result.a < Self::MOD, "a must be < MOD after init");
@@ -139,16 +140,16 @@ impl RollingChecksum {
         let old = u32::from(old_byte);
         let new = u32::from(new_byte);
 
-        // Update a: remove old, add new
-        self.a = (self.a.wrapping_sub(old).wrapping_add(new)) % Self::MOD;
+        // Update a: remove old, add new. Add MOD first so the difference never
+        // goes below zero (a wrapped value is not congruent mod 65521).
+        self.a = (self.a + Self::MOD + new - old) % Self::MOD;
 
-        // Update b: remove old's contribution (it was weighted by count), add new a
-        // Truncation is intentional: checksum uses 32-bit arithmetic
-        self.b = (self
-            .b
-            .wrapping_sub(self.count as u32 * old)
-            .wrapping_add(self.a))
-            % Self::MOD;
+        // Update b: remove old's contribution (it was weighted by count), add new a.
+        // MOD * count >= count * old keeps the intermediate non-negative.
+        let count = self.count as u64;
+        let b = u64::from(self.b) + u64::from(Self::MOD) * count + u64::from(self.a)
+            - count * u64::from(old);
+        self.b = (b % u64::from(Self::MOD)) as u32;
 
         debug_assert!(self.a < Self::MOD, "a must be < MOD after roll");
         debug_assert!(self.b < Self::MOD, "b must be < MOD after roll");
